@@ -37,7 +37,8 @@ C++ glue (whitelist): declarations of uint64_t uint32_t int int32_t int64_t unsi
   integer literals, MOD and gl64_device::W (values parsed from the header), casts between the integer types (C++
   conversion rules: truncation, zero / sign extension by the SOURCE type), unary - ~ !, comparisons == != < <= > >=
   (usual arithmetic conversions, result bool), + - & | ^ on unsigned operands, << >> by a literal amount below the
-  width (>> of a signed value is arithmetic).  No *, /, %: products belong to the PTX where they are tracked."""
+  width (>> of a signed value is arithmetic); * / % between literals only (constant expressions, e.g. "n" operands):
+  products of registers belong to the PTX where they are tracked."""
 import hashlib, os, re, shutil, subprocess, sys
 
 ARCHS = (700, 600)
@@ -232,7 +233,8 @@ def tsigned(cty):
 # ------------------------------------------------------------------------------------------------ glue expressions
 TOK = re.compile(r'\s*(?:(0[xX][0-9a-fA-F]+|\d+)([uUlL]*)|([A-Za-z_]\w*(?:\s*::\s*[A-Za-z_]\w*)*)|'
                  r'(==|!=|<=|>=|<<|>>|&&|\|\||->|[-+*/%&|^~!<>()\[\].,?:=]))')
-PREC = {'|': 1, '^': 2, '&': 3, '==': 4, '!=': 4, '<': 5, '<=': 5, '>': 5, '>=': 5, '<<': 6, '>>': 6, '+': 7, '-': 7}
+PREC = {'|': 1, '^': 2, '&': 3, '==': 4, '!=': 4, '<': 5, '<=': 5, '>': 5, '>=': 5, '<<': 6, '>>': 6, '+': 7, '-': 7,
+        '*': 8, '/': 8, '%': 8}
 
 
 def tokenize(e):
@@ -513,6 +515,12 @@ class Gen:
                 if tsigned(ct) and op not in ('==', '!='):
                     fn += 's'
                 return self.gemit('r', fn, w, x, y), 'bool'
+            if op in ('*', '/', '%'):                            # constant expressions only
+                if x.val is None or y.val is None or (op != '*' and y.val == 0):
+                    raise ParseError('%s outside a constant expression: %s' % (op, short(text)))
+                a, b = (sx(w, x.val), sx(w, y.val)) if tsigned(ct) else (x.val, y.val)
+                q = abs(a) // abs(b) * (1 if (a < 0) == (b < 0) else -1) if op != '*' else 0   # C++ truncates
+                return lit(a * b if op == '*' else q if op == '/' else a - q * b, t), ct
             if tsigned(ct) and (x.val is None or y.val is None):
                 raise ParseError('%s on signed operands: %s' % (op, short(text)))
             if op in ('+', '-'):
@@ -975,6 +983,9 @@ def tla_body(ir, res):
         a = [tla_arg(x, fn in ('shl', 'shr', 'shrs') and i == 1) for i, x in enumerate(args)]
         if FN[fn][1]:
             a = ['Beta' if w == 32 else 'T'] + a
+        if t == 'f' and fn in ('band', 'bor', 'bxor'):          # on predicates: the one-bit operator itself
+            lets.append('%s == B1(%d, %s)' % (n, ('band', 'bor', 'bxor').index(fn), ', '.join(a)))
+            continue
         lets.append('%s == %s(%s)' % (n, FN[fn][0], ', '.join(a)))
     r = tla_arg(res)
     return ('  LET ' + '\n      '.join(lets) + '\n  IN ' + r) if lets else '  ' + r
